@@ -505,8 +505,61 @@ func checkEventTables(c *core.Ctx) {
 				}
 			}
 		}
+		checkNarrowing(c, "C24.width")
 		c.Check(!narrow, "C24.width", "savePubKey/id-width", pos, "the public-key id type holds every table size", "the validator public-key id is uint16(len(table))+1: it wraps to 0 (the 'no key' sentinel) at the 65 536th distinct key and to 1 after that, overwriting earlier keys; at exactly 65 535 keys the loader's uint16 loop bound wraps and loads nothing after a restart")
 	}
+}
+
+// checkNarrowing: every other integer-narrowing conversion to 16 bits or fewer in the events store
+// (outside savePubKey, whose uint16 id is the recorded finding) is a violation: ids and counts of
+// the address table are 32-bit, and a key or count squeezed through uint16 makes two ids share a
+// record once the table is larger than 65 536 entries.
+func checkNarrowing(c *core.Ctx, rule string) {
+	n := 0
+	width := func(t types.Type) int {
+		bt, ok := t.Underlying().(*types.Basic)
+		if !ok {
+			return 0
+		}
+		switch bt.Kind() {
+		case types.Uint8, types.Int8:
+			return 8
+		case types.Uint16, types.Int16:
+			return 16
+		case types.Uint32, types.Int32:
+			return 32
+		case types.Uint64, types.Int64, types.Int, types.Uint, types.Uintptr:
+			return 64
+		}
+		return 0
+	}
+	for _, fn := range c.SrcFuncs(pkgEvents) {
+		for _, b := range fn.Blocks {
+			for _, in := range b.Instrs {
+				cv, ok := in.(*ssa.Convert)
+				if !ok {
+					continue
+				}
+				to, from := width(cv.Type()), width(cv.X.Type())
+				if to == 0 || from == 0 || to >= from || to > 16 {
+					continue
+				}
+				if _, isConst := cv.X.(*ssa.Const); isConst {
+					continue
+				}
+				n++
+				name := core.ShortFn(fn)
+				if strings.HasSuffix(name, "eventsStore).savePubKey") {
+					c.OK(rule, name+"/narrowing", cv.Pos(), "the uint16 public-key id (see the recorded finding savePubKey/id-width)")
+					continue
+				}
+				// a byte taken from a wider value for serialisation of a single byte-sized field is fine
+				// only when the source is itself bounded by a mask / modulo; anything else is reported
+				c.Bad(rule, name+"/narrowing", cv.Pos(), fmt.Sprintf("a %d-bit value is narrowed to %d bits in the events store: ids, counts or keys larger than the narrow type collide (two addresses / keys share one stored record after enough of them were seen)", from, to))
+			}
+		}
+	}
+	c.Floor(rule, n, 1, "narrowing conversions to ≤16 bits in the events package")
 }
 
 func keysOfMap(m map[string]bool) []string {
